@@ -76,7 +76,10 @@ fn parse_exponent(data: &[u8], index: &mut usize) -> Result<i32, Error> {
     }
 
     check_digit!(data, *index);
-    while exponent < 1000 && is_digit!(data, *index) {
+    // The written exponent is not the net exponent: zeros of the significand are added or
+    // subtracted afterwards (`0.<9999 zeros>1e10000` is 1.0), so it must not saturate where a
+    // literal can still compensate. 10^8 is beyond any literal whose length fits an i32.
+    while exponent < 100_000_000 && is_digit!(data, *index) {
         exponent = digit!(data, *index) as i32 + exponent * 10;
         *index += 1;
     }
